@@ -49,7 +49,7 @@ RelationalOps == {"ShuffleSequences", "Sample", "SampleSeqBag", "CleanNames", "T
 ReadOnlyOps == {"Clone", "CloneSeqBag", "Unalign", "Sample", "SampleSeqBag", "SubAlign", "Extract", "SelectSites",
                 "InverseCoordinates", "InversePositions", "RefCoordinates", "RefSites", "Split", "Transpose",
                 "MaxCharStats", "Consensus", "CharStats", "CharStatsSite", "CharStatsSeq", "UniqueCharacters",
-                "Entropy", "NbVariableSites", "InformativeSites", "AvgAllelesPerSite", "Pssm", "CountDifferences",
+                "Entropy", "EntropyAll", "NbVariableSites", "InformativeSites", "AvgAllelesPerSite", "Pssm", "CountDifferences",
                 "NumGapsUnique", "NumMutationsUnique", "NumMutRef", "ListMutRef", "CountProfile", "ProfileOnly", "SiteConservation", "AlphabetInfo",
                 "BuildBootstrap", "RandSubAlign", "Rarefy", "DetectAlphabet", "Identical", "Query", "New", "NewFromFasta", "CodonAlign", "LongestORFObj"}
 
@@ -146,10 +146,15 @@ Step(h, op, recv, a) ==
     [] op = "CharStatsSite" -> IF CharStatsSiteErr(o, a.site) THEN Fail(o) ELSE Q(o, [m |-> CharStatsSite(o, a.site)])
     [] op = "CharStatsSeq" -> IF CharStatsSeqErr(o, a.idx) THEN Fail(o) ELSE Q(o, [m |-> CharStatsSeq(o, a.idx)])
     [] op = "Entropy" -> IF EntropyErr(o, a.site) THEN Fail(o) ELSE Q(o, [f |-> Entropy(o, a.site, a.rmgaps)])
+    \* `goalign compute entropy`: the entropy of every site, or (-a) their average over the sites where it is defined
+    [] op = "EntropyAll" ->
+         LET es == [i \in 1..Width(o) |-> Entropy(o, i - 1, a.rmgaps)]
+             def == SelectSeq(es, LAMBDA x : ~FIsNaN(x))
+         IN Q(o, [f |-> es, avg |-> FDiv(FSum(def), FInt(Len(def)))])
     [] op = "NbVariableSites" -> Q(o, [v |-> NbVariableSites(o)])
     [] op = "InformativeSites" -> Q(o, [v |-> InformativeSites(o)])
     [] op = "AvgAllelesPerSite" -> Q(o, [f |-> AvgAlleles(o)])
-    [] op = "Pssm" -> Q(o, [cells |-> [k \in 1..Len(AlphaChars(o)) |->
+    [] op = "Pssm" -> IF PssmErr(o, a.norm) THEN Fail(o) ELSE Q(o, [cells |-> [k \in 1..Len(AlphaChars(o)) |->
                          [c |-> AlphaChars(o)[k],
                           v |-> [i \in 1..Width(o) |-> PssmCell(o, AlphaChars(o)[k], i, a.log, FParse(a.pc), a.norm)]]]])
     [] op = "CountDifferences" -> Q(o, [all |-> CountDiffAll(o), rows |-> [r \in 1..(Len(o.rows) - 1) |-> CountDiffRow(o, r + 1)]])
@@ -198,11 +203,19 @@ RetOK(op, a, exp, obs) ==
     [] op = "AlphabetInfo" -> obs.chars = exp.chars /\ obs.idx = exp.idx
     [] op = "InformativeSites" -> obs.v = exp.v
     [] op \in {"Entropy", "AvgAllelesPerSite"} -> FClose(FParse(obs.f), exp.f, FParse("1e-9"), FParse("1e-12"))
+    \* (the command prints three decimals: half a unit of the last one, whoever is asked)
+    [] op = "EntropyAll" ->
+         LET near(x, y) == FClose(FParse(x), y, FInt(0), FParse("5.0001e-4")) IN
+         IF a.avg THEN near(obs.avg, exp.avg)
+         ELSE Len(obs.f) = Len(exp.f) /\ \A i \in 1..Len(exp.f) : near(obs.f[i], exp.f[i])
+    \* (through the command line the table is printed with three decimals: obs.prec = 3)
     [] op = "Pssm" ->
+         LET near(x, y) == IF "prec" \in DOMAIN obs THEN FClose(FParse(x), y, FInt(0), FParse("5.0001e-4"))
+                           ELSE FClose(FParse(x), y, FParse("1e-9"), FParse("1e-12")) IN
          /\ Len(obs.m) = Len(exp.cells)
          /\ \A k \in 1..Len(exp.cells) : \E j \in 1..Len(obs.m) :
                /\ obs.m[j].c = exp.cells[k].c /\ Len(obs.m[j].v) = Len(exp.cells[k].v)
-               /\ \A i \in 1..Len(exp.cells[k].v) : FClose(FParse(obs.m[j].v[i]), exp.cells[k].v[i], FParse("1e-9"), FParse("1e-12"))
+               /\ \A i \in 1..Len(exp.cells[k].v) : near(obs.m[j].v[i], exp.cells[k].v[i])
     [] op = "CountDifferences" ->
          /\ {<<obs.all[k][1], obs.all[k][2]>> : k \in 1..Len(obs.all)} = exp.all /\ Len(obs.all) = Cardinality(exp.all)
          /\ Len(obs.rows) = Len(exp.rows)
@@ -250,7 +263,7 @@ CliSplit(o, a) ==
 \* commands that print numbers (tables of counts, majority characters, ...): nothing is read back, the printed values
 \* are the return record of the query
 CliQueryOps == {"CharStats", "CharStatsSeq", "CountProfile", "ProfileOnly", "MaxCharStats", "AvgAllelesPerSite",
-                "NumMutRef", "ListMutRef", "NumGapsUnique", "NumMutationsUnique", "CountDifferences", "NbVariableSites"}
+                "NumMutRef", "ListMutRef", "NumGapsUnique", "NumMutationsUnique", "CountDifferences", "NbVariableSites", "EntropyAll", "Pssm"}
 CliOf(op, o, R) ==
   IF R.err THEN Fail(o)
   ELSE IF op \in CliQueryOps THEN Res(FALSE, o, <<>>, R.ret, R.j)
